@@ -97,7 +97,7 @@ def check_m2(ctx, prog, res_fork, F_fork):
     ctx.floor("C12.M2a", 7, "sigaction, dup2, chdir, execvp, environ=, 2x _exit")
     # (b) path-sensitive: every such event in process_fork happens on the child side
     seen = set()
-    for kind, fn, n, info, st, stack in res_fork.events:
+    for kind, fn, n, info, st, stack in (x[:6] for x in res_fork.events):
         if kind in ("sigaction", "chdir", "exec", "dup2", "store-global") or (kind == "noreturn"):
             key = (kind, n["id"], st.mon.get("proc"))
             if key in seen:
@@ -110,7 +110,7 @@ def check_m2(ctx, prog, res_fork, F_fork):
     from ..summaries import analyse_process_start
     res, F, I = analyse_process_start(ctx, prog)
     seen = set()
-    for kind, fn, n, info, st, stack in res.events:
+    for kind, fn, n, info, st, stack in (x[:6] for x in res.events):
         if kind in ("sigaction", "chdir", "exec", "dup2", "store-global", "noreturn", "sigmask"):
             if kind == "store-global" and info[0] != ("g", "environ"):
                 continue
@@ -160,7 +160,7 @@ def check_m3(ctx, prog):
     covered = set()
     handler_ok = True
     hdetail = []
-    for kind, fn, n, info, st, stack in res.events:
+    for kind, fn, n, info, st, stack in (x[:6] for x in res.events):
         if kind == "sigaction":
             for a in info[0]:
                 covered.add(a)
@@ -201,7 +201,7 @@ def check_m4(ctx, prog):
     I = new_interp(prog)
     res = I.run(F)
     ctx.stats("E-ABS", I.stats)
-    stores = [(fn, n, info) for kind, fn, n, info, st, stack in res.events if kind == "store-input"]
+    stores = [(fn, n, info) for kind, fn, n, info, st, stack in (x[:6] for x in res.events) if kind == "store-input"]
     ctx.ob("C12.M4", "strv_concat", "copying the environment never writes through its input arrays "
            "(the parent's environ and its strings are only read)", not stores,
            {"stores": [site_of(fn, n) for fn, n, _ in stores][:5]}, nontrivial=True)
